@@ -59,6 +59,7 @@ def handle (op : String) (arg : Sexp) : String :=
   | "query-notin-unaware-shape", .list [mode, plan, db, impl] => handleQuery mode plan db impl
   | "query-trycast-literal-cmp", .list [mode, plan, db, impl] => handleQuery mode plan db impl
   | "query-notin-list-with-null", .list [mode, plan, db, impl] => handleQuery mode plan db impl
+  | "query-inlist-case-element", .list [mode, plan, db, impl] => handleQuery mode plan db impl
   | "query-derived-global-count", .list [mode, plan, db, impl] => handleQuery mode plan db impl
   | "query", .list [mode, plan, db, impl] => handleQuery mode plan db impl
   | "eval", .list [plan, db] =>
